@@ -219,7 +219,7 @@ class NCVar:
         for n, c in enumerate(cells):
             v = val if flat is None else (flat[n] if nval > 1 else flat[0])
             if isinstance(v, (DT, TD)):
-                raise TypeError("cannot store datetime in a numeric NetCDF variable")
+                raise ValueError("cannot include dtype 'M' in a buffer")  # what netCDF4 raises for a datetime64 array
             self._cells[c] = _cast_elem(v, kind) if not isinstance(v, Masked) else v
             for d, i in zip(self.dimensions, c):
                 self._f._dimlen[d] = max(self._f._dimlen[d], i + 1)
